@@ -3,6 +3,7 @@ CONSTANTS
   Zones = {1, 2, 3}
   FixLock = TRUE
   FixAck = TRUE
+  FixStale = TRUE
   ZlibDetects = TRUE
   MaxMain = 3
   MaxFaults = 1
